@@ -204,6 +204,10 @@ def execute_owned(world, rep, op, kind):
             h, world.last_derived = world.last_derived, None
             lo, hi = op_window(world, rep, op)
             world.evals += oracles.c03_intrinsic(h, lo, hi)
+        if owner and world.focus == 'C03' and kind in ('slice', 'slice2', 'convert') and not world.quiet:
+            # ... and about the SOURCE, which a constructor must not have turned non-canonical either
+            lo, hi = oracles.window(rep.m)
+            world.evals += oracles.c03_intrinsic(rep.g, lo - 2, hi + 2)
         if owner and world.focus not in owner and not world.quiet:
             # the operation's own oracles belong to another property: the run is discarded (that
             # property's check reports the defect), never filed under this focus
@@ -748,7 +752,7 @@ def fault_variants(res, limit=24):
         if op.get('op') == 'parse' and o.get('cls') == 'parse' and op.get('bad_row') is None:
             # conversion failure enumerated over every row index
             for k in range(len(op['rows'])):
-                fld = 'time' if (op.get('nodekind') != 'int' or k % 2) else 'node'
+                fld = 'time' if (op.get('nodekind') != 'int' or op.get('nodetype_str') or k % 2) else 'node'
                 out.append(res.ops[:i] + [dict(op, bad_row=k, bad_field=fld)] + res.ops[i + 1:])
             if len(out) >= limit:
                 break
